@@ -1,6 +1,7 @@
 import PrefVerif.Driver.Util
 import PrefVerif.Model.EntryPoints
 import PrefVerif.Spec.PrefLibFormat
+import PrefVerif.Spec.Autocorrect
 open Lean PrefVerif PrefVerif.Driver PrefVerif.Py PrefVerif.InstanceIO PrefVerif.EntryPoints
 
 namespace PrefVerif.Driver.IO
@@ -128,5 +129,23 @@ def prim : Handler := fun j => do
     ("splitColon", toJson ((splitOn ':' t).map String.ofList)), ("toNat", toJson (toNat? t)),
     ("scanOrder", toJson (OrdinalIO.scanOrder t)), ("scanBallot", toJson (CategoricalIO.scanBallot t)),
     ("altName", toJson ((matchNumbered (s "# ALTERNATIVE NAME ") t).map (fun p => (p.1, String.ofList p.2))))]
+
+end PrefVerif.Driver.IO
+
+namespace PrefVerif.Driver.IO
+open PrefVerif.Spec
+
+/-- C16: judge the names an implementation produced under autocorrect -/
+def autocorrectSpec : Handler := fun j => do
+  let raw ← arg (α := List String) j "raw"
+  let fin ← arg (α := List String) j "final"
+  let lines ← arg (α := List (Nat × List (List Nat))) j "lines"
+  let r := raw.map String.toList
+  let f := fin.map String.toList
+  return obj [("distinct", toJson (Autocorrect.distinct f)),
+    ("firstKept", toJson (Autocorrect.firstOccurrencesKept [] r f)),
+    ("clashGenerated", toJson (Autocorrect.clashesWithGenerated [] r f)),
+    ("merged", toJson (Autocorrect.merged lines)),
+    ("voters", toJson ((lines.map (·.1)).sum))]
 
 end PrefVerif.Driver.IO
